@@ -226,13 +226,35 @@ func mutateRecord(r *rand.Rand, rec []byte, muts []HMut) []byte {
 			if len(out) >= 12 {
 				binary.BigEndian.PutUint16(out[9+m.A%(len(out)-11):], uint16(m.B))
 			}
-		case "dup-ext", "drop-ext", "swap-ext", "dup-ech":
+		case "dup-ext", "drop-ext", "swap-ext", "dup-ech", "ext-edge", "field-edge":
 			h, err := echbox.ParseHelloRecord(out)
 			if err != nil || len(h.Exts) == 0 {
 				continue
 			}
 			i := m.A % len(h.Exts)
 			switch m.Kind {
+			case "ext-edge":
+				// the body of one extension (preferring the ones the Conn parses)
+				// replaced by a degenerate but length-consistent body
+				for _, t := range []uint16{echbox.ExtSNI, 16, echbox.ExtVersions} {
+					if k := h.Find(t); k >= 0 && (m.A/8)%4 != 3 && int(t)%3 == (m.A/32)%3 {
+						i = k
+					}
+				}
+				h.Exts[i].Data = [][]byte{{}, {0}, {0, 0}, {0, 1, 0}, {0, 3, 0, 0, 0}, {0, 2, 1, 0}, {1, 0}, {0, 4, 0, 0, 1, 0x41}, {0xff, 0xff}, {0, 2, 0, 0}}[m.B%10]
+			case "field-edge":
+				// degenerate fixed fields: no cipher suites, no compression methods,
+				// an over-long session id
+				switch m.B % 4 {
+				case 0:
+					h.CipherSuites = nil
+				case 1:
+					h.Compression = nil
+				case 2:
+					h.SessionID = make([]byte, 33+m.A%200)
+				case 3:
+					h.Compression = []byte{1, 0, 64}
+				}
 			case "dup-ext":
 				h.Exts = slices.Insert(h.Exts, m.B%(len(h.Exts)+1), h.Exts[i])
 			case "drop-ext":
@@ -311,7 +333,10 @@ func hostileBytes(seed uint64, side string, items []HRec, b *built, p *ScriptPla
 			if it.Kind == "hello2" && it.A%3 == 2 {
 				kind = "hello2-nover"
 			}
-			rec, _, _, _, err := hc.hello2(kind, 0, it.A%2 == 0)
+			if it.Kind == "hello2" && it.A%5 == 4 {
+				kind = "hello2-inner-edge"
+			}
+			rec, _, _, _, err := hc.hello2(kind, it.A/5, it.A%2 == 0 || kind == "hello2-inner-edge")
 			if err != nil {
 				continue
 			}
@@ -450,7 +475,7 @@ func executeHostile(t *testing.T, prop string, seed uint64, p *HostilePlan) *cor
 	return res
 }
 
-var hmutKinds = []string{"flip", "flip", "set", "trunc", "trunc-fix", "append", "reclen", "hslen", "u16at", "u16at", "dup-ext", "drop-ext", "swap-ext", "dup-ech"}
+var hmutKinds = []string{"flip", "flip", "set", "trunc", "trunc-fix", "append", "reclen", "hslen", "u16at", "u16at", "dup-ext", "drop-ext", "swap-ext", "dup-ech", "ext-edge", "ext-edge", "field-edge"}
 
 func genHRecs(r *rand.Rand, side string) []HRec {
 	n := r.IntN(6)
@@ -491,6 +516,9 @@ func genHRecs(r *rand.Rand, side string) []HRec {
 
 func genC08(seed uint64, idx int) *Plan {
 	r := core.NewRand(seed, "plan")
+	if idx%10 == 9 {
+		return genDuplex(seed, idx)
+	}
 	if idx%25 == 0 {
 		b := genScriptBase(r)
 		b.Chunks, b.ReadBuf, b.Trailer = nil, 0, nil
@@ -515,6 +543,20 @@ func genC08(seed uint64, idx int) *Plan {
 		b.Grease, b.Expect = true, "passthrough"
 	}
 	h := &HostilePlan{Base: *b, BackFirst: r.IntN(2) == 0, NoKeys: r.IntN(5) == 0, Chunks: genChunks(r)}
+	if idx%10 == 3 && !b.NoECH && !b.Grease {
+		// an authentic payload whose inner hello has one degenerate field (on the
+		// first hello, or - every other time - also on the hello after a retry request)
+		h.Base.Compress = false
+		h.Base.Mutations = []Mutation{{Kind: "inner-edge", A: idx / 10}}
+		h.NoKeys = false
+		if (idx/10)%2 == 1 {
+			h.Base.Mutations = nil
+			h.BackFirst = true
+			h.Back = []HRec{{Kind: "hrr"}}
+			h.Tail = []HRec{{Kind: "hello2", A: 4 + 5*(idx/20)}}
+		}
+		return &Plan{Kind: "hostile", Seed: seed, Hostile: h}
+	}
 	if idx%25 == 7 && !b.NoECH && !b.Grease {
 		// decompression bomb: an authentic hello naming one big outer extension 127 times
 		h.Base.Compress, h.Base.ExtraIn = true, max(h.Base.ExtraIn, 4)
